@@ -9,6 +9,7 @@ from __future__ import annotations
 import hashlib
 import json
 import os
+import re
 import subprocess
 import sys
 import tarfile
@@ -34,7 +35,7 @@ ASSUMPTIONS = ['lemma blocks have the shape the slicer documents: `${ $d/$e ... 
 SEEDS = list(range(8))
 FLOORS = {'quick': {'databases': 300, 'databases_with_nested_blocks': 100, 'databases_with_dv': 100, 'databases_with_e': 100,
                     'roundtrips_checked': 2400, 'slices_verified': 1000, 'slices_with_hyps': 100, 'slices_with_dv': 30, 'slices_using_earlier_lemma': 60,
-                    'shipped_databases': 10, 'shipped_slices_verified': 500, **{f'seed_runs:{s}': 300 for s in SEEDS}}}
+                    'shipped_databases': 10, 'shipped_slices_verified': 500, 'databases_with:clash_token_is_variable': 20, 'databases_with:clash_token_is_constant': 20, **{f'seed_runs:{s}': 300 for s in SEEDS}}}
 FLOORS['thorough'] = dict(FLOORS['quick'], databases=4000, slices_verified=12000, roundtrips_checked=32000)
 
 REPO = Path(os.environ.get('PI2_REPO', '/repo'))
@@ -257,7 +258,23 @@ def shard(ctx):
         g = mmdb.make_c17_case(rng)
         if g is None:
             continue
-        cases.append({'text': g['text'], 'features': g['features'], 'kind': 'generated', 'name': f'g{ctx.shard}.{len(cases)}'})
+        text, feats = g['text'], list(g['features'])
+        if rng.random() < 0.3:
+            # one token is a variable in some databases and a constant in others (all are parsed by one process, one after the other)
+            th = g['theory']
+            u = rng.choice(('u0', 'u1', 'u2'))
+            if rng.random() < 0.5:
+                old, mode = rng.choice(list(th.f_order)), 'clash_token_is_variable'
+            else:
+                cs = [c for c in th.all_constants() if c.startswith('\\')]
+                old, mode = (rng.choice(cs), 'clash_token_is_constant') if cs else (None, None)
+            if old is not None:
+                t2 = re.sub(r'(?<!\S)' + re.escape(old) + r'(?!\S)', u, text)
+                db_, err_ = mm.verify_text(t2, strict=True)
+                if err_ is None and not any(v is not None for v in db_.results.values()):
+                    text = t2
+                    feats.append(mode)
+        cases.append({'text': text, 'features': feats, 'kind': 'generated', 'name': f'g{ctx.shard}.{len(cases)}'})
     for t in range(ctx.scale(64, 640)):
         g = mmdb.late_dv_case(rng)
         cases.append({'text': g['text'], 'features': g['features'], 'kind': 'generated', 'name': f't{ctx.shard}.{t}'})
@@ -291,7 +308,8 @@ def shard(ctx):
                 ctx.count('databases_with_dv')
             if 'rule_with_hyps' in f or 'lemma_with_hyps' in f:
                 ctx.count('databases_with_e')
-            for x in ('twin_blocks', 'global_dv', 'late_f', 'uses_twin_first', 'uses_twin_second', 'uses_nested_rule', 'uses_dv_axiom'):
+            for x in ('twin_blocks', 'global_dv', 'late_f', 'uses_twin_first', 'uses_twin_second', 'uses_nested_rule', 'uses_dv_axiom',
+                      'clash_token_is_variable', 'clash_token_is_constant'):
                 if x in f:
                     ctx.count('databases_with:' + x)
     seen_slices = {}
